@@ -83,9 +83,16 @@ def check_pure(model, rep, sx):
         try:
             outs = sx.run(m.node, m.module, cls)
         except CannotDecide as e:
-            rep.cannot('C15.pure', f'{cls}.{meth}', str(e), m.loc)
+            from sa.extract import purity_scan
+            bad = purity_scan(model, cls, m.node)
+            if bad:
+                rep.violation('C15.pure', f'{cls}.{meth}', f'the rule keeps or consults remembered state: it {bad[0][1]}', f'{m.module}:{bad[0][0]}')
+            else:
+                rep.cannot('C15.pure', f'{cls}.{meth}', str(e), m.loc)
             continue
         stores = sorted({f'{e[1]}.{e[2]}' for o in outs for e in o.state.effects if e[0] in ('store', 'setitem')})
+        from sa.extract import purity_scan
+        stores += [w for _, w in purity_scan(model, cls, m.node)]
         selfreads = set()
         rep.decide(not stores, 'C15.pure', f'{cls}.{meth}',
                    f'the rule stores state when asked ({stores[:3]}): later proposals can be computed from remembered values instead '
